@@ -79,9 +79,11 @@ def p7vOp (args : List String) : String :=
   | [kind, det, t, content] =>
     match t.toNat?, ofHex content with
     | some t, some content =>
-      if ¬ (kind ∈ ["sm2a", "sm2b", "sm2na", "sm2nb"]) ∨ ¬ (det = "0" ∨ det = "1") ∨ t > 9 then "bad-op" else
-      let attrs := ¬ (kind = "sm2na" ∨ kind = "sm2nb")
-      let oid : DigestOID := if t = 6 then .other else if kind = "sm2b" ∨ kind = "sm2nb" then .sm3Arc else .sm3
+      if ¬ (kind ∈ ["sm2a", "sm2b", "sm2na", "sm2nb", "sm2ga", "sm2gb", "sm2gna", "sm2gnb"]) ∨ ¬ (det = "0" ∨ det = "1") ∨ t > 9 then "bad-op" else
+      let attrs := ¬ (kind ∈ ["sm2na", "sm2nb", "sm2gna", "sm2gnb"])
+      let oid : DigestOID := if t = 6 then .other else if kind ∈ ["sm2b", "sm2nb", "sm2gb", "sm2gnb"] then .sm3Arc else .sm3
+      -- g: the signer names the signature algorithm 1.2.156.10197.1.301.1 (GM/T 0010) instead of SM3-with-SM2
+      let enc : EncOID := if kind ∈ ["sm2ga", "sm2gb", "sm2gna", "sm2gnb"] then .dsaSM2 else .sm3WithSM2
       let cert (i : Nat) : Cert := ⟨⟨[BitVec.ofNat 8 i], 950 + i⟩, i⟩
       let dig := idealP.hash .sm3 (if t = 1 then 1 :: content else content)
       let ct : Attr := ⟨false, [6, 9]⟩
@@ -92,7 +94,7 @@ def p7vOp (args : List String) : String :=
       let as := if t = 3 ∧ attrs then as0 ++ [⟨false, [0x17]⟩] else as0
       let content' := if t = 4 ∨ (t = 3 ∧ ¬ attrs) then content ++ [0x55] else content
       let certs := if t = 7 then [cert 2] else [cert 0]
-      let signers : List Signer := if t = 8 then [] else [⟨(cert 0).ias, oid, as, .sm3WithSM2, sig⟩]
+      let signers : List Signer := if t = 8 then [] else [⟨(cert 0).ias, oid, as, enc, sig⟩]
       match verify idealP content' certs signers with
       | .ok _ => "accept"
       | .error _ => "reject"
